@@ -2725,6 +2725,9 @@ class Clusters:
 
 def expansion2mpf(ctx, e):
     """Transform FP expansion to mpf instance."""
+    if len(e) == 0:
+        # the expansion of zero is empty
+        return ctx.mpf(0)
     return sum([float2mpf(ctx, e_) for e_ in reversed(e[:-1])], float2mpf(ctx, e[-1]))
 
 
@@ -2823,6 +2826,9 @@ def number2expansion(dtype, q, length=None, functional=False, base=None):
 
 def multiword2mpf(ctx, mw):
     """Transform multiword to mpf instance."""
+    if len(mw) == 0:
+        # the multiword of zero is empty
+        return ctx.mpf(0)
     s = float2mpf(ctx, mw[-1])
     for i in reversed(range(len(mw) - 1)):
         s = s + float2mpf(ctx, mw[i])
